@@ -198,9 +198,20 @@ def rule_route(ctx: Ctx) -> RuleResult:
     attribute = attr_fmt + guard_key
     gg = ctx.p.function("spil_data_conf.get_getter_for")
     table = None
+    lookup = None
+    gflow = flow_of(gg.node)
+    attr_p = gg.params[1] if len(gg.params) > 1 else "attribute"
     for n in own_nodes(gg.node):
-        if isinstance(n, ast.Assign) and isinstance(n.value, ast.Dict) and norm(n.targets[0]) == "attribute_getters":
-            table = n.value
+        # <table>.get(attribute): the table is a dictionary display, directly or through a local name
+        if isinstance(n, ast.Call) and isinstance(n.func, ast.Attribute) and n.func.attr == "get" and n.args and norm(n.args[0]) == attr_p:
+            recv = n.func.value
+            if isinstance(recv, ast.Dict):
+                table, lookup = recv, n
+            elif isinstance(recv, ast.Name):
+                at = gflow.node_of(n)
+                ds = gflow.defs_reaching(at.id, recv.id) if at is not None else []
+                if len(ds) == 1 and ds[0].kind == "assign" and isinstance(ds[0].value, ast.Dict):
+                    table, lookup = ds[0].value, n
     if table is None:
         res.violation([gg.qualname, "attribute_getters"], "get_getter_for has no attribute_getters table", gg.relpath, gg.node.lineno)
         return res
@@ -213,11 +224,14 @@ def rule_route(ctx: Ctx) -> RuleResult:
     r = ctx.p.resolve_expr(gg.module, v.func, gg) if isinstance(v, ast.Call) else None
     ok = r is not None and r.kind == "class" and r.cls is not None and ctx.p.find_method(r.cls, "get_attr") is not None \
         and ctx.p.find_method(r.cls, "get_attr").qualname == NEXT
-    looked = any(isinstance(n, ast.Call) and norm(n) == "attribute_getters.get(attribute)" for n in own_nodes(gg.node))
+    looked = lookup is not None
     first = False
     gcfg = cfg_of(gg.node)
     for r_ in _rets(gg):
-        if r_.value is not None and norm(r_.value) == "getter":
+        if r_.value is None:
+            continue
+        at = gflow.node_of(r_)
+        if any(a.kind == "call" and a.node is lookup for a in gflow.depends(r_.value, at.id if at else None)) or any(x is lookup for x in ast.walk(r_.value)):
             first = True
     if ok and looked and first:
         res.ok("get_next -> get_getter_for", f"'{attribute}' is a key of attribute_getters and maps to NextGetter, looked up before the type table")
